@@ -209,6 +209,7 @@ func (fr *frame) protoMarshal(m iface) value {
 		// tokens are non-empty and start with the marker so they never equal other file contents by accident
 		r.assertPC(smt.PrefixOf(smt.StrC("PB1"), tv))
 		r.assertPC(smt.Eq(smt.StrLen(tv), smt.IntC(19)))
+		tv.KnownLen = 19
 		tok = symStr{tv}
 		sz := r.declare(r.fresh("pbsize"), smt.SInt, "size")
 		r.assertPC(smt.And(smt.Le(smt.IntC(1), sz), smt.Le(sz, smt.IntC(1<<20))))
